@@ -452,6 +452,7 @@ def main(argv=None):
     ap.add_argument('--scale', type=float, default=float(os.environ.get('VERIF_SCALE', '1')),
                     help='multiply example counts (debugging)')
     ap.add_argument('--no-evidence', action='store_true')
+    ap.add_argument('--fail-fast', action='store_true', help='stop at the first violating shard (sensitivity runs only)')
     args = ap.parse_args(argv)
 
     if os.environ.get('PYTHONHASHSEED') != '0':
@@ -535,7 +536,14 @@ def main(argv=None):
                                                 args.tier, sd, args.scale)))
             else:
                 futs.append(('shard', ex.submit(run_shard, module_name, name, k, args.tier, sd)))
-        for kind, fu in futs:
+        order = futs
+        if args.fail_fast:
+            kinds = {fu: kind for kind, fu in futs}
+            order = ((kinds[fu], fu) for fu in cf.as_completed(list(kinds)))
+        stop = False
+        for kind, fu in order:
+            if stop:
+                break
             try:
                 r = fu.result()
             except BaseException as e:   # noqa: worker died
@@ -550,6 +558,15 @@ def main(argv=None):
                 results.append(r)
                 if r['harness_error']:
                     harness_errors.append('[%s/%d] %s' % (r['sub'], r['shard'], r['harness_error']))
+                if args.fail_fast and r['violation']:
+                    stop = True
+            if args.fail_fast and kind == 'replay' and not isinstance(r, dict) and any(x.get('failure') for x in r):
+                stop = True
+        if stop:
+            for fu in [f for _, f in futs]:
+                fu.cancel()
+            for pr in list(getattr(ex, '_processes', {}).values()):
+                pr.terminate()
 
     # ---- aggregate -----------------------------------------------------------------------
     violations = []
